@@ -112,3 +112,100 @@ package moss
 //@   loop 1: invariant forall p int :: 0 <= p && p < i ==> keyRank(a, p) < rank(key)
 //@   loop 1: invariant forall p int :: j <= p && p < segLen(a) ==> keyRank(a, p) > rank(key)
 //@   loop 1: decreases j - i
+
+// ---- entries (C01, C08, C10, C19) ------------------------------------------------------
+
+// The value slice of entry i (aliases buf).
+//@ pure func valAt(a *segment, i int) []byte = a.buf[kstart(a, i) + klen(a, i) : kstart(a, i) + klen(a, i) + vlen(a, i)]
+//@ pure func keyAt(a *segment, i int) []byte = a.buf[kstart(a, i) : kstart(a, i) + klen(a, i)]
+
+//@ func (a *segment) getOperationKeyVal(pos int) (uint64, []byte, []byte)
+//@   props C01 C10 C19 C09
+//@   requires segValid(a) && 0 <= pos
+//@   ensures @inrange pos < segLen(a) ==> r0 == kop(a, pos) && r1 == keyAt(a, pos) && r2 == valAt(a, pos)
+//@   ensures @outrange pos >= segLen(a) ==> r0 == 0 && r1 == nil && r2 == nil
+//@   ensures @keyrank pos < segLen(a) ==> rank(r1) == keyRank(a, pos)
+
+//@ func (a *segment) Get(key []byte) (operation uint64, val []byte, err error)
+//@   props C01 C10 C14 C19
+//@   requires segValid(a) && segSorted(a) && indexOK(a)
+//@   ensures @noerr err == nil
+//@   ensures @present forall p int :: 0 <= p && p < segLen(a) && keyRank(a, p) == rank(key) ==> operation == kop(a, p) && val == valAt(a, p)
+//@   ensures @absent (forall p int :: 0 <= p && p < segLen(a) ==> keyRank(a, p) != rank(key)) ==> operation == 0 && val == nil
+
+//@ func (a *segment) Len() int
+//@   props C09 C20
+//@   requires a != nil
+//@   ensures result == segLen(a)
+
+// ---- cursors (C09) -------------------------------------------------------------------
+
+//@ pure func lowerBound(a *segment, key []byte, p int) bool = 0 <= p && p <= segLen(a) &&
+//@     (forall q int :: 0 <= q && q < p ==> keyRank(a, q) < rank(key)) &&
+//@     (forall q int :: p <= q && q < segLen(a) ==> keyRank(a, q) >= rank(key))
+//@ pure func segOK(a *segment) bool = segValid(a) && segSorted(a) && indexOK(a)
+//@ pure func cursorOK(c *segmentCursor) bool = c != nil && segOK(c.s) &&
+//@     0 <= c.start && c.start <= segLen(c.s) && 0 <= c.end && c.end <= segLen(c.s) && c.start <= c.curr
+//@ pure func curOf(sc SegmentCursor) *segmentCursor = ptrOf(sc, "*segmentCursor")
+
+//@ func (a *segment) Cursor(startKeyInclusive []byte, endKeyExclusive []byte) (SegmentCursor, error)
+//@   props C09 C14
+//@   requires segOK(a)
+//@   ensures @shape r1 == nil && typeIs(r0, "*segmentCursor") && fresh(curOf(r0)) && curOf(r0).s == a && curOf(r0).curr == curOf(r0).start
+//@   ensures @start lowerBound(a, startKeyInclusive, curOf(r0).start)
+//@   ensures @endnil endKeyExclusive == nil ==> curOf(r0).end == segLen(a)
+//@   ensures @end endKeyExclusive != nil ==> lowerBound(a, endKeyExclusive, curOf(r0).end)
+//@   ensures @ok cursorOK(curOf(r0))
+
+//@ func (c *segmentCursor) Current() (operation uint64, key []byte, val []byte)
+//@   props C09
+//@   requires cursorOK(c)
+//@   ensures @in c.curr < c.end ==> operation == kop(c.s, c.curr) && key == keyAt(c.s, c.curr) && val == valAt(c.s, c.curr) && rank(key) == keyRank(c.s, c.curr)
+//@   ensures @out c.curr >= c.end ==> operation == 0 && key == nil && val == nil
+
+//@ func (c *segmentCursor) Next() error
+//@   props C09
+//@   requires cursorOK(c)
+//@   modifies c.curr
+//@   ensures @step c.curr == old(c.curr) + 1
+//@   ensures @done (result == nil) <==> c.curr < c.end
+//@   ensures @err result != nil ==> result == ErrIteratorDone
+
+//@ func (c *segmentCursor) Seek(startKeyInclusive []byte) error
+//@   props C09
+//@   requires cursorOK(c)
+//@   modifies c.curr
+//@   ensures @clamp c.curr >= c.start && c.curr <= segLen(c.s)
+//@   ensures @below forall q int :: c.start <= q && q < c.curr ==> keyRank(c.s, q) < rank(startKeyInclusive)
+//@   ensures @above forall q int :: c.curr <= q && q < segLen(c.s) ==> keyRank(c.s, q) >= rank(startKeyInclusive)
+//@   ensures @done (result == nil) <==> c.curr < c.end
+//@   ensures @err result != nil ==> result == ErrIteratorDone
+
+//@ func (c *segmentCursor) nextDelta(delta int) error
+//@   props C09 C14
+//@   requires cursorOK(c) && delta >= 0
+//@   modifies c.curr
+//@   ensures @step c.curr == old(c.curr) + delta
+//@   ensures @done (result == nil) <==> c.curr < c.end
+
+//@ func (c *segmentCursor) currentKey() (idx int, key []byte)
+//@   props C14
+//@   requires cursorOK(c)
+//@   ensures @in c.curr < c.end ==> idx == c.curr && key == keyAt(c.s, c.curr) && rank(key) == keyRank(c.s, c.curr)
+//@   ensures @out c.curr >= c.end ==> idx == 0 && key == nil
+
+// ---- building a segment (C19) ------------------------------------------------------------
+
+//@ func (a *segment) mutateEx(operation uint64, keyStart, keyLength, valLength int) error
+//@   props C19
+//@   requires a != nil && len(a.kvs) % 2 == 0 && keyLength >= 0 && valLength >= 0 && keyStart >= 0
+//@   modifies a.kvs, elems(a.kvs), a.totOperationSet, a.totOperationDel, a.totOperationMerge, a.totKeyByte, a.totValByte
+//@   ensures @keyTooLarge keyLength > maxKeyLength ==> result == ErrKeyTooLarge && a.kvs == old(a.kvs)
+//@   ensures @valTooLarge keyLength <= maxKeyLength && valLength > maxValLength ==> result == ErrValueTooLarge && a.kvs == old(a.kvs)
+//@   ensures @accepted keyLength <= maxKeyLength && valLength <= maxValLength ==> result == nil
+//@   ensures @grows result == nil ==> len(a.kvs) == old(len(a.kvs)) + 2
+//@   ensures @entry result == nil ==> klen(a, old(segLen(a))) == keyLength && vlen(a, old(segLen(a))) == valLength && kop(a, old(segLen(a))) == opOf(operation)
+//@   ensures @start result == nil && (keyLength > 0 || valLength > 0) ==> kstart(a, old(segLen(a))) == keyStart
+//@   ensures @start0 result == nil && keyLength == 0 && valLength == 0 ==> kstart(a, old(segLen(a))) == 0
+//@   ensures @earlier result == nil ==> (forall i int :: 0 <= i && i < old(segLen(a)) ==>
+//@       kstart(a, i) == old(kstart(a, i)) && klen(a, i) == old(klen(a, i)) && vlen(a, i) == old(vlen(a, i)) && kop(a, i) == old(kop(a, i)))
